@@ -125,6 +125,11 @@ func (fr *frame) effectsOf(blocks map[*ssa.BasicBlock]bool) (keys map[string]boo
 				}
 			case *ssa.MakeClosure, *ssa.MakeChan, *ssa.MakeSlice:
 				keys["TOP"] = true
+			case *ssa.Go:
+				// the spawner only records the spawn
+				fc.compDecl("G:spawned", "(Array Int Bool)")
+				keys["G:spawned"] = true
+				fr.nonAllocWrites["G:spawned"] = true
 			case ssa.CallInstruction:
 				ks, a := fr.callEffects(in.Common())
 				if a {
@@ -346,6 +351,19 @@ func (fr *frame) run(entry *State, entryReach string) {
 				if a, ok := fr.addrs[al]; ok && a.kind == 1 {
 					if _, live := st.comp[a.key]; live {
 						st.comp[a.key] = fc.freshConst(fmt.Sprintf("%slh%d_%s", fr.prefix, b.Index, a.key), fc.compSort[a.key])
+					}
+				}
+			}
+			// map-range loops: the iterator position is loop-carried ghost state (no phi in go/ssa): arbitrary at the cut point
+			for _, in := range b.Instrs {
+				if nx, ok := in.(*ssa.Next); ok {
+					if rng, ok := nx.Iter.(*ssa.Range); ok && rangeInfos[rng] != nil {
+						ri := rangeInfos[rng]
+						key := "L:" + fr.prefix + "rangepos_" + rng.Name()
+						fc.compDecl(key, "Int")
+						np := fc.freshConst(fmt.Sprintf("%slh%d_rangepos", fr.prefix, b.Index), "Int")
+						fc.fact("", "(and (<= 0 %s) (<= %s (len_%s %s)))", np, np, fc.P.SeqSort(ri.ks), ri.keys)
+						st.comp[key] = np
 					}
 				}
 			}
@@ -685,7 +703,12 @@ func (fr *frame) instr(b *ssa.BasicBlock, idx int, in ssa.Instruction, st *State
 			}
 		}
 	case *ssa.Go:
-		// spawning has no effect on the spawner in this model
+		// spawning has no effect on the spawner in this model; a spawned closure is recorded in the ghost set `spawned`
+		// (its identity and captured values are known from the MakeClosure facts)
+		if _, isClo := fr.closures[in.Call.Value]; isClo && !in.Call.IsInvoke() {
+			fc.compDecl("G:spawned", "(Array Int Bool)")
+			st.comp["G:spawned"] = fmt.Sprintf("(store %s %s true)", fc.lookup(st, "G:spawned"), fr.val(in.Call.Value))
+		}
 		fc.abstract("go statements: the spawned function has no effect on the spawner")
 	case *ssa.Send:
 		fc.abstract("channel sends are no-ops")
@@ -1146,6 +1169,10 @@ func (fr *frame) rangeInit(in *ssa.Range, st *State) {
 	n := fr.declareVal(in)
 	_ = n
 	rangeInfos[in] = &rangeInfo{keys: keys, ks: ks, mt: mt, m: m}
+	// (re)start the iteration: position 0
+	posKey := "L:" + fr.prefix + "rangepos_" + in.Name()
+	fc.compDecl(posKey, "Int")
+	st.comp[posKey] = "0"
 	fr.fc.fact("", "(= %s 0)", n) // iterator position: number of Next calls completed
 }
 
@@ -1176,8 +1203,11 @@ func (fr *frame) rangeNext(in *ssa.Next, st *State, R string) {
 	fc.fact("", "(= %s_r0 (< %s (len_%s %s)))", n, pos, s, ri.keys)
 	fc.fact("", "(=> %s_r0 (= %s_r1 (at_%s %s %s)))", n, n, s, ri.keys, pos)
 	// value as of now (deleting other keys during iteration is not modelled)
-	fc.fact("", "(=> %s_r0 (= %s_r2 (select (select %s %s) %s_r1)))", n, n, fc.lookup(st, mv), ri.m, n)
-	fr.loadedAssume(n+"_r2", ri.mt.Elem(), st)
+	if tup.Len() > 2 && P.SortOf(tup.At(2).Type()) == P.SortOf(ri.mt.Elem()) {
+		// (for k := range m leaves the value component untyped)
+		fc.fact("", "(=> %s_r0 (= %s_r2 (select (select %s %s) %s_r1)))", n, n, fc.lookup(st, mv), ri.m, n)
+		fr.loadedAssume(n+"_r2", ri.mt.Elem(), st)
+	}
 	st.comp[key] = fmt.Sprintf("(ite %s_r0 (+ %s 1) %s)", n, pos, pos)
 }
 
